@@ -94,6 +94,22 @@ Init ==
     /\ defrole = [u \in Users |-> "all"]
     /\ act = [name |-> "init"] /\ ret = "none" /\ eff = "none" /\ step = 0
 
+\* C39, transition dump "around the table overlap": initial states in which a user and a role hold
+\* different table-level privileges on one table, with and without the role being granted to the user
+InitOv ==
+    /\ exists = Accts
+    /\ \E u \in Users, r \in Roles, d \in Dbs, t \in Tbls, e \in BOOLEAN :
+          \E p1 \in (TblPrivs \cap Privs) \ {"GRANT OPTION"}, p2 \in (TblPrivs \cap Privs) \ {"GRANT OPTION"} :
+              /\ p1 # p2
+              /\ grants = [a \in Accts |-> IF a = u THEN {Atom(TblObj(d, t), p1)} ELSE IF a = r THEN {Atom(TblObj(d, t), p2)} ELSE {}]
+              /\ edges = IF e THEN {[r |-> r, to |-> u, adm |-> FALSE]} ELSE {}
+    /\ dyn = [a \in Accts |-> {}]
+    /\ locked = [a \in Accts |-> a \in Roles]
+    /\ pw = [a \in Accts |-> "none"]
+    /\ active = [u \in Users |-> "all"]
+    /\ defrole = [u \in Users |-> "all"]
+    /\ act = [name |-> "init"] /\ ret = "none" /\ eff = "none" /\ step = 0
+
 Out(a, r) == act' = a /\ ret' = r /\ eff' = "none" /\ step' = step + 1
 
 \* ---- accounts --------------------------------------------------------------------------------
@@ -457,4 +473,5 @@ StJson(s) == [accts |-> {[a |-> a, locked |-> s.locked[a], pw |-> s.pw[a], g |->
 TblOverlap(G, E) == \E e \in E : \E x \in G[e.to], y \in G[e.r] : x.tbl # "*" /\ x.db = y.db /\ x.tbl = y.tbl /\ x.p # y.p
 Emit == PrintT("TR " \o ToJson([step |-> step', act |-> act', ret |-> ret', pre |-> StJson(StateRec),
                                  ov |-> [pre |-> TblOverlap(grants, edges), post |-> TblOverlap(grants', edges')]]))
+EmitFirst == step = 0 /\ Emit          \* only the transitions out of the initial states
 =============================================================================
